@@ -53,12 +53,12 @@ func (in *interner) id(s string) int {
 
 // enc accumulates what a case needs besides the terms themselves.
 type enc struct {
-	orcJSON   map[string]interface{} // the oracle tables in plain form, for the python-side property oracles
-	in        *interner
-	patterns  map[string]struct{} // every regexp source the schema can use
-	formats   map[string]struct{}
-	instStrs  map[string]struct{} // every string of the instance (member names and string values)
-	nextObjID int
+	orcJSON     map[string]interface{} // the oracle tables in plain form, for the python-side property oracles
+	in          *interner
+	patterns    map[string]struct{} // every regexp source the schema can use
+	formats     map[string]struct{}
+	instStrs    map[string]struct{} // every string of the instance (member names and string values)
+	nextObjID   int
 	unsupported string
 }
 
